@@ -32,6 +32,12 @@ import (
 	"github.com/NVIDIA/KAI-scheduler/pkg/binder/controllers"
 	binderplugins "github.com/NVIDIA/KAI-scheduler/pkg/binder/plugins"
 	"github.com/NVIDIA/KAI-scheduler/pkg/binder/plugins/gpusharing"
+	k8splugincommon "github.com/NVIDIA/KAI-scheduler/pkg/binder/plugins/k8s-plugins/common"
+	binderdra "github.com/NVIDIA/KAI-scheduler/pkg/binder/plugins/k8s-plugins/dynamicresources"
+	bindstate "github.com/NVIDIA/KAI-scheduler/pkg/binder/plugins/state"
+	"github.com/NVIDIA/KAI-scheduler/pkg/common/k8s_utils"
+	"k8s.io/client-go/informers"
+	k8splfeature "k8s.io/kubernetes/pkg/scheduler/framework/plugins/feature"
 )
 
 type crashSentinel struct{ at int }
@@ -132,7 +138,7 @@ func faultErr(f string, kind, name string) error {
 	}
 }
 
-func NewBinderActor(api *SimAPI, allocTimeout time.Duration) *BinderActor {
+func NewBinderActor(api *SimAPI, allocTimeout time.Duration, opts ...string) *BinderActor {
 	b := &BinderActor{API: api, Plan: map[int]string{}, AgentDelay: time.Second, agentIdx: map[string]int{}, Fired: map[string]int{}}
 	pre := func(verb string, obj any, name string) error {
 		if b.Gate != nil {
@@ -288,6 +294,11 @@ func NewBinderActor(api *SimAPI, allocTimeout time.Duration) *BinderActor {
 		WithInterceptorFuncs(funcs).Build()
 	b.RRS = resourcereservation.NewService(false, b.Client, "reservation-image", allocTimeout, ReservationNS, "sa", ReservationApp, "kai-scale-adjust", "", nil)
 	plugins := binderplugins.New()
+	for _, o := range opts {
+		if o == "dra" {
+			plugins.RegisterPlugin(newDRABinderPlugin(b))
+		}
+	}
 	plugins.RegisterPlugin(gpusharing.New(b.Client, false))
 	bnd := binding.NewBinder(b.Client, b.RRS, plugins)
 	b.Rec = controllers.NewBindRequestReconciler(b.Client, Scheme(), record.NewFakeRecorder(10000), &controllers.ReconcilerParams{MaxConcurrentReconciles: 1, RateLimiterBaseDelaySeconds: 1, RateLimiterMaxDelaySeconds: 60}, bnd, b.RRS)
@@ -382,3 +393,65 @@ func (b *BinderActor) CallLog() []BinderCall {
 }
 
 var _ = sort.Strings
+
+// ---- DRA: the binder's real dynamicresources plugin (claim reservation at bind time) -------------------------------
+// The k8s-plugins wrapper (which also builds the volume-binding plugin and needs started informers) is re-stated in ten
+// lines: PreBind calls the real plugin's Bind for pods that reference claims; the plugin itself is the repository's
+// code. Its typed clientset calls are routed through the same call counter / fault plan as the controller-runtime client.
+
+type draBinderPlugin struct {
+	real k8splugincommon.K8sPlugin
+}
+
+func newDRABinderPlugin(b *BinderActor) *draBinderPlugin {
+	cl := b.API.ClientsFor("binder-dra")
+	b.API.mu.Lock()
+	b.API.Decide = func(c *Call, nth int) string {
+		if c.Actor != "binder-dra" {
+			return ""
+		}
+		verb := c.Verb
+		if c.Sub != "" {
+			verb += "/" + c.Sub
+		}
+		b.mu.Lock()
+		b.calls++
+		k := b.calls
+		f := b.Plan[k]
+		b.Log = append(b.Log, BinderCall{K: k, Verb: verb, Kind: c.Resource, Name: c.Name, Fault: f})
+		if f != "" {
+			b.Fired[f+" "+verb]++
+		}
+		b.mu.Unlock()
+		switch f {
+		case "crash":
+			b.crashHere(k)
+		case "after":
+			return "after:timeout"
+		case "error", "conflict", "notfound":
+			return f
+		}
+		return ""
+	}
+	b.API.mu.Unlock()
+	handle := k8s_utils.NewFrameworkHandle(cl.Kube, informers.NewSharedInformerFactory(cl.Kube, 0), nil)
+	real, err := binderdra.NewDynamicResourcesPlugin(handle, &k8splfeature.Features{EnableDynamicResourceAllocation: true}, 30)
+	must(err)
+	return &draBinderPlugin{real: real}
+}
+
+func (p *draBinderPlugin) Name() string { return "k8s-plugins" }
+func (p *draBinderPlugin) PreBind(ctx context.Context, pod *corev1.Pod, node *corev1.Node, br *bindv1alpha2.BindRequest, _ *bindstate.BindingState) error {
+	if !p.real.IsRelevant(pod) {
+		return nil
+	}
+	return p.real.Bind(ctx, pod, br, nil)
+}
+func (p *draBinderPlugin) PostBind(ctx context.Context, pod *corev1.Pod, node *corev1.Node, br *bindv1alpha2.BindRequest, _ *bindstate.BindingState) {
+}
+func (p *draBinderPlugin) Rollback(ctx context.Context, pod *corev1.Pod, node *corev1.Node, br *bindv1alpha2.BindRequest, _ *bindstate.BindingState) error {
+	if p.real.IsRelevant(pod) {
+		p.real.UnAllocate(ctx, pod, node.Name, nil)
+	}
+	return nil
+}
